@@ -18,6 +18,13 @@ import sys
 sys.path.insert(0, os.path.dirname(os.path.abspath(__file__)))
 from witness import scratch_copy, HERE  # noqa
 
+# seeds that stopped being a breaking change when a fix: commit removed the construct they broke (their own demonstration passes
+# with the change applied): kept for the record, run as behaviour-preserving edits — they must leave the check silent
+SUPERSEDED = {
+    "C03-b": "the sibling rule streams were initialised member-wise and missed the proto offset `pof`; fix eb7167e removed that member "
+             "(rule streams are expanded on the wall clock), the member-wise copy is complete now and the seed's demonstration passes",
+}
+
 EXPECT_MISSED = {
     "C01-b": "get_isowk(): the ISO week-1 rule's constant arithmetic is off by a day for some years — a numerical result, no structural clause",
     "C08-b": "first-occurrence comparison `f0 > d` boundary inside a filler's value arithmetic — value-level",
@@ -89,11 +96,14 @@ def main():
     rows = []
     for sid, pid, st, hits, err in res:
         rules = sorted({h["rule"] for h in hits})
-        exp = "missed" if sid in EXPECT_MISSED else "caught"
+        exp = "missed" if (sid in EXPECT_MISSED or sid in SUPERSEDED) else "caught"
+        if sid in SUPERSEDED and st == "missed":
+            st = "superseded"
+            exp = "superseded"
         flag = "" if st == exp else "   <-- UNEXPECTED (expected %s)" % exp
         if flag:
             bad += 1
-        print("%-6s %-4s %-16s %s%s" % (sid, pid, st, ", ".join(rules) or (EXPECT_MISSED.get(sid, err)[:100]), flag))
+        print("%-6s %-4s %-16s %s%s" % (sid, pid, st, ", ".join(rules) or ((SUPERSEDED.get(sid) or EXPECT_MISSED.get(sid, err))[:100]), flag))
         rows.append((sid, pid, st, rules, hits))
         if a.write:
             mp = os.path.join(HERE, "seeded", sid, "meta.json")
@@ -103,7 +113,7 @@ def main():
             if st == "caught":
                 meta["caught_by"] = [{"rule": h["rule"], "instance": h["instance"], "where": h["where"]} for h in hits[:4]]
             else:
-                meta["missed"] = EXPECT_MISSED.get(sid, "not caught (%s)" % st)
+                meta["missed"] = SUPERSEDED.get(sid) or EXPECT_MISSED.get(sid, "not caught (%s)" % st)
             json.dump(meta, open(mp, "w"), indent=1)
     if a.write and not a.ids:
         with open(os.path.join(HERE, "seeded", "MATRIX.md"), "w") as f:
@@ -114,8 +124,9 @@ def main():
                 f.write("| %s | %s | %s | %s | %s |\n" % (sid, pid, st, ", ".join(rules) or "—", meta["breaks"].replace("|", "/")))
             f.write("\n%d seeds: %d caught, %d missed (all value-level, see meta.json `missed`).\n" % (
                 len(rows), sum(1 for r in rows if r[2] == "caught"), sum(1 for r in rows if r[2] != "caught")))
-    print("seeds: %d, caught %d, missed %d, unexpected %d" % (len(rows), sum(1 for r in rows if r[2] == "caught"),
-                                                            sum(1 for r in rows if r[2] == "missed"), bad))
+    print("seeds: %d, caught %d, missed %d, superseded %d, unexpected %d" % (len(rows), sum(1 for r in rows if r[2] == "caught"),
+                                                                            sum(1 for r in rows if r[2] == "missed"),
+                                                                            sum(1 for r in rows if r[2] == "superseded"), bad))
     return 1 if bad else 0
 
 
